@@ -52,3 +52,12 @@ Theorem C17_request_pipeline_bounded : forall Q blocks plen af fast ops, 0 <= Q 
   zlen (pd_pending (fold_left pd_apply ops (pdl_new blocks plen af fast))) <= Q.
 Proof. exact pipeline_bounded. Qed.
 Print Assumptions C17_request_pipeline_bounded.
+
+(* queued upload requests per peer (peerwriter, kind 1105): for every sequence of piece messages,
+   chokes, cancels (early and late) and other messages the queue never holds more than the configured
+   number of piece messages *)
+From RainV Require Wire WireProofs.
+Theorem C17_upload_queue_bounded : forall maxq fast ms, 0 <= maxq ->
+  Wire.count_pieces (fold_left (Wire.wq_op maxq fast) ms []) <= maxq.
+Proof. exact WireProofs.writer_queue_bounded. Qed.
+Print Assumptions C17_upload_queue_bounded.
